@@ -206,6 +206,11 @@ func c16Native(rootKind, name string, op int, single bool) {
 	if strings.ContainsRune(name, 0) {
 		vr.SkipNative()
 	}
+	if strings.Contains(vr.Label(), "no lookup outside") {
+		// a stat of a path outside the root leaves no trace in a real tree: that counterexample stands on the
+		// solver's verdict
+		vr.SkipNative()
+	}
 	base := fskit.Root()
 	defer fskit.Cleanup()
 	root := base + "/top" + rootKind
